@@ -30,6 +30,7 @@ func main() {
 		}
 		r := &Run{Env: env, Harness: h, Params: map[string]int{}}
 		autoStates := 0
+		corpusKind := ""
 		for _, a := range os.Args[3:] {
 			kv := strings.SplitN(a, "=", 2)
 			switch kv[0] {
@@ -37,6 +38,8 @@ func main() {
 				r.Workers, _ = strconv.Atoi(kv[1])
 			case "maxpaths":
 				r.MaxPaths, _ = strconv.Atoi(kv[1])
+			case "corpus":
+				corpusKind = kv[1]
 			case "auto":
 				autoStates, _ = strconv.Atoi(kv[1])
 			case "nomerge":
@@ -55,6 +58,8 @@ func main() {
 		}
 		if autoStates > 0 {
 			r = exploreAutomaton(r, autoStates)
+		} else if corpusKind != "" {
+			r = exploreCorpusLoop(r, corpusKind)
 		} else {
 			r.Explore()
 		}
